@@ -51,7 +51,7 @@ MANIFEST = dict(
          'correspondence), the real Tokenizer as lexer of the line correspondences, CPython.',
 )
 
-IMPORTS = ['Coq.NArith.NArith', 'Coq.Lists.List', 'Coq.Strings.String', 'Coq.Bool.Bool', 'Coq.Arith.Arith', 'SV.Fmt.LongString', 'SV.Fmt.FgdBin', 'SV.Fmt.FgdBinEnt', 'SV.Fmt.FgdLine', 'SV.Fmt.FgdBody', 'SV.SM.LazyDb', 'SV.SM.LazyDbMulti',
+IMPORTS = ['Coq.NArith.NArith', 'Coq.Lists.List', 'Coq.Strings.String', 'Coq.Bool.Bool', 'Coq.Arith.Arith', 'SV.Fmt.LongString', 'SV.Fmt.FgdBin', 'SV.Fmt.FgdBinEnt', 'SV.Fmt.FgdLine', 'SV.Fmt.FgdBody', 'SV.Fmt.FgdHead', 'SV.Fmt.FgdEntity', 'SV.SM.LazyDb', 'SV.SM.LazyDbMulti',
            'SV.Gen.FgdConsts_gen', 'SV.Props.C16']
 PRE = '''Import ListNotations. Open Scope bool_scope. Open Scope N_scope. Open Scope list_scope.
 Fixpoint bad_idx {A} (f : A -> bool) (n : N) (l : list A) : list N :=
@@ -965,6 +965,192 @@ def corr_lines(ck: Ck) -> None:
             j = bad[first][0]
             row = data[names.index(first)][j]
             ck.extra[f'text_line_{kind}_disagreement'] = {'site': first, 'code': codes[names.index(first)][j], 'case': [str(x)[:600] for x in row]}
+
+
+# ----------------------------------------------------------------------------------------------- entity headers
+HEAD_PRE = """Import ListNotations. Open Scope bool_scope. Open Scope N_scope. Open Scope list_scope.
+Fixpoint leqb {X} (e : X -> X -> bool) (a b : list X) : bool :=
+  match a, b with [], [] => true | x :: a', y :: b' => e x y && leqb e a' b' | _, _ => false end.
+Definition hobj : Type := (list N * list (list N))%type.
+Definition hobj_eqb (a b : hobj) : bool := str_eqb (fst a) (fst b) && leqb str_eqb (snd a) (snd b).
+Fixpoint tk_eqb (a b : tok) : bool :=
+  match a, b with TStr x, TStr y | TParen x, TParen y => str_eqb x y | TColon, TColon | TEq, TEq | TPlus, TPlus | TNl, TNl
+  | TBrOpen, TBrOpen | TBrClose, TBrClose | TComma, TComma | TOther, TOther => true | _, _ => false end.
+Definition h_known (n : list N) : bool := existsb (str_eqb n) known_names.
+(* a (name, arguments) pair that was not tabulated gives a marker no helper of the implementation equals *)
+Definition h_parse (n : list N) (a : list (list N)) : option hobj :=
+  match find (fun r => str_eqb (fst (fst r)) n && leqb str_eqb (snd (fst r)) a) hp_tab with
+  | Some r => snd r
+  | None => Some ([0], [])
+  end.
+Definition HR (ts : list tok) := head_read hobj h_known h_parse (fun n a => (n, a)) ts.
+Definition head_eqb (a b : head hobj) : bool :=
+  Bool.eqb (h_alias _ a) (h_alias _ b) && leqb str_eqb (h_bases _ a) (h_bases _ b) && leqb hobj_eqb (h_helpers _ a) (h_helpers _ b)
+  && str_eqb (h_class _ a) (h_class _ b) && str_eqb (h_desc _ a) (h_desc _ b).
+(* writer: 0 = the same tokens *)
+Definition hw (c : bool * bool * list (list N) * list hform * bool * list N * list (list N) * list tok) : N :=
+  let '(cu, al, bs, fs, hid, cl, secs, ts) := c in if leqb tk_eqb (head_toks cu al bs fs hid cl secs) ts then 0 else 1.
+(* reader: compared when the model stops where the entity loop then finds the closing bracket (what the streams end with);
+   4 = the model stopped elsewhere (a `[` in the middle): the implementation goes on reading body lines, not compared *)
+Definition hr (c : list tok * option (head hobj)) : N :=
+  match HR (fst c), snd c with
+  | None, None => 0
+  | Some (h, rest), w =>
+      match skip_nl rest with
+      | [TBrClose] | [TBrClose; TNl] => match w with Some h' => if head_eqb h h' then 0 else 1 | None => 2 end
+      | _ => 4
+      end
+  | None, Some _ => 3
+  end.
+"""
+HEAD_BASES = ['BaseEntity', 'Targetname', 'Angles', 'prop_dynamic_base', 'A', 'b2']
+HEAD_CLASSES = ['info_target', 'Func_Door', 'npc_x', 'e']
+
+
+def corr_head(ck: Ck) -> None:
+    """Fmt/FgdHead.v against the implementation.  Writers: the tokens the real Tokenizer reads from what EntityDef.export writes
+    between `@PointClass` and the `[` == head_toks (bases / aliasof, helpers of every pool entry incl. halfgridsnap, unknown and
+    extension helpers, class name, description split by _write_longstring).  Readers: EntityDef.parse(eval_bases=False) on those
+    token lists and on lists with 1-2 token mutations == head_read: alias flag, bases, helpers (type name + export() arguments),
+    class name, description, raise <-> None.  HELPER_IMPL[..].parse is tabulated for every (known name, arguments) pair a stream
+    can ask for."""
+    import warnings
+    import srctools.fgd as F
+    from srctools.fgd import HELPER_IMPL, EntityDef, EntityTypes, HelperHalfGridSnap, HelperTypes, UnknownHelper
+    from srctools.tokenizer import IterTokenizer, Token as T
+    rng = ck.rng
+    known = [h.value for h in HelperTypes]
+    cs = lambda x: '[' + ';'.join(str(ord(c)) for c in x) + ']'   # noqa: E731
+    cl = lambda xs: coq_list(cs(x) for x in xs)   # noqa: E731
+    tl = lambda ts: coq_list(('TStr ' + cs(v)) if t is T.STRING else ('TParen ' + cs(v)) if t is T.PAREN_ARGS else coq_tok(t, v) for t, v in ts)   # noqa: E731
+    hp: dict[tuple[str, tuple[str, ...]], Optional[tuple[str, list[str]]]] = {}
+
+    def hkey(h: Any) -> tuple[str, list[str]]:
+        return (h.name if isinstance(h, UnknownHelper) else h.TYPE.value, list(h.export()))
+
+    def tabulate(toks: list[tuple[Any, str]]) -> None:
+        names = {v for t, v in toks if t is T.STRING and v in known}
+        argss = {()} | {tuple(a) for a in ([x.strip() for x in v.split(',')] for t, v in toks if t is T.PAREN_ARGS)} \
+            | {() for t, v in toks if t is T.PAREN_ARGS and v.strip() == ''}
+        argss = {(() if a == ('',) else a) for a in argss}
+        for n in names:
+            for a in argss:
+                if (n, a) not in hp:
+                    try:
+                        with warnings.catch_warnings():
+                            warnings.simplefilter('ignore')
+                            hp[n, a] = hkey(HELPER_IMPL[HelperTypes(n)].parse(list(a)))
+                    except Exception:   # noqa: BLE001
+                        hp[n, a] = None
+    w_cases, r_cases = [], []
+    forms_checked, forms_bad = 0, []
+    extras = [(T.STRING, 'halfgridsnap'), (T.STRING, 'size'), (T.STRING, 'zzz'), (T.STRING, 'aliasof'), (T.STRING, 'base'), (T.PAREN_ARGS, ''),
+              (T.PAREN_ARGS, 'a, b'), (T.PAREN_ARGS, ' x '), (T.NEWLINE, '\n'), (T.EQUALS, '='), (T.COLON, ':'), (T.PLUS, '+'), (T.BRACK_OPEN, '['),
+              (T.COMMA, ','), (T.STRING, 'text')]
+    for i in range(ck.budget(40, 300)):
+        plain = i % 3 == 2
+        custom = not plain
+        e = EntityDef(EntityTypes.POINT, rng.choice(HEAD_CLASSES))
+        e.bases = rng.sample(HEAD_BASES, rng.choice([0, 0, 1, 2, 3]))
+        e.is_alias = bool(e.bases) and rng.random() < 0.3
+        for _ in range(rng.choice([0, 1, 2, 3, 5])):
+            hname, hargs = rng.choice(HELPER_POOL if rng.random() < 0.8 else EXT_HELPER_POOL + [('orderby', ['speed', 'Model'])])
+            try:
+                e.helpers.append(UnknownHelper(hname[1:], list(hargs)) if hname.startswith('@') else HELPER_IMPL[HelperTypes(hname)].parse(list(hargs)))
+            except (ValueError, TypeError, KeyError):
+                pass
+        e.desc = gen_line_text(rng, rng.choice(['empty', 'short', 'short', 'special', 'long']), plain)
+        buf = io.StringIO()
+        e.export(buf, True, custom)
+        toks = fgd_tokens(buf.getvalue())
+        cut = next(k for k, (t, _) in enumerate(toks) if t is T.BRACK_OPEN)
+        head = toks[1:cut + 1]
+        forms = []
+        for h in e.helpers:
+            if h.IS_EXTENSION and not custom:
+                continue
+            forms.append('HBare ' + cs('halfgridsnap') if isinstance(h, HelperHalfGridSnap) else 'HCall %s %s' % (cs(hkey(h)[0]), cl(h.export())))
+        # premises of c16_entity_header_roundtrip on this entity: [form_ok] for every helper, [bases_ok], a stripped class name
+        for h in e.helpers:
+            n, a = hkey(h)
+            ok_args = all(x and ',' not in x and x.strip() == x for x in a)
+            if isinstance(h, UnknownHelper):
+                ok_form = n not in known and n != 'aliasof'
+            else:
+                try:
+                    ok_form = n in known and n not in ('base', 'autovis') and hkey(HELPER_IMPL[HelperTypes(n)].parse(list(a))) == (n, a)
+                except Exception:   # noqa: BLE001
+                    ok_form = False
+            forms_checked += 1
+            if not (ok_args and ok_form):
+                forms_bad.append(f'{n}({", ".join(a)})')
+        if not (all(x and ',' not in x and x.strip() == x for x in e.bases) and len(set(e.bases)) == len(e.bases) and e.classname.strip() == e.classname):
+            forms_bad.append(f'bases {e.bases} / class {e.classname!r}')
+        secs = [v for t, v in fgd_tokens(impl_write(custom, e.desc, '\t\t') + '\n') if t is T.STRING] if e.desc else []
+        w_cases.append('(%s, %s, %s, %s, %s, %s, %s, %s)' % (coq_bool(custom), coq_bool(e.is_alias), cl(e.bases), coq_list(forms),
+                                                           coq_bool(len(forms) < len(e.helpers)), cs(e.classname), cl(secs), tl(head)))
+        ck.count('corr_head_export')
+        ck.hist('head_helpers', len(e.helpers))
+        ck.hist('head_bases', ('alias ' if e.is_alias else '') + str(len(e.bases)))
+        if len(head) > 6:
+            ck.seen(('head', buf.getvalue()[:buf.getvalue().index('\n\t[')]))
+        for mut in (0, 1, 2):
+            h2 = list(head)
+            for _ in range(mut):
+                j = rng.randrange(len(h2) + 1)
+                r = rng.random()
+                if r < 0.3 and h2:
+                    del h2[min(j, len(h2) - 1)]
+                elif r < 0.5 and len(h2) > 1:
+                    k = min(j, len(h2) - 2)
+                    h2[k], h2[k + 1] = h2[k + 1], h2[k]
+                elif r < 0.6 and h2:
+                    h2.insert(j, h2[min(j, len(h2) - 1)])
+                else:
+                    h2.insert(j, rng.choice(extras))
+            stream = h2 + [(T.NEWLINE, '\n'), (T.BRACK_CLOSE, ']')]
+            tabulate(stream)
+            fgd = F.FGD()
+            try:
+                with warnings.catch_warnings():
+                    warnings.simplefilter('ignore')
+                    EntityDef.parse(fgd, IterTokenizer(iter(stream), 'c16', F.FGDParseError), EntityTypes.POINT, eval_bases=False)
+                [ent] = fgd.entities.values()
+                if fgd.auto_visgroups:
+                    continue            # autovis is not modelled
+                want = 'Some (mk_head hobj %s %s %s %s %s)' % (
+                    coq_bool(ent.is_alias), cl(b if isinstance(b, str) else b.classname for b in ent.bases),
+                    coq_list('(%s, %s)' % (cs(n), cl(a)) for n, a in map(hkey, ent.helpers)), cs(ent.classname), cs(ent.desc))
+            except Exception:   # noqa: BLE001
+                want = 'None'
+            r_cases.append('(%s, %s)' % (tl(stream), want))
+            ck.count('corr_head_parse')
+            ck.hist('head_parse', ('mutated ' if mut else 'as written ') + ('raises' if want == 'None' else 'parsed'))
+    pre = HEAD_PRE.replace('Definition h_known', 'Definition known_names : list (list N) := %s.\nDefinition hp_tab : list (list N * list (list N) * option hobj) := %s.\nDefinition h_known' % (
+        cl(known), coq_list('(%s, %s, %s)' % (cs(n), cl(a), 'None' if v is None else 'Some (%s, %s)' % (cs(v[0]), cl(v[1])))
+                            for (n, a), v in sorted(hp.items(), key=lambda kv: (kv[0][0], kv[0][1])))), 1)
+    ck.obligation('data:header_premises_hold_for_generated_entities', not forms_bad and 'base' in known and 'aliasof' not in known,
+                  f'{forms_checked} helpers of the generated entities: HELPER_IMPL[type].parse(export()) gives the same helper, arguments and '
+                  f'base names are non-empty, stripped and without commas, no helper is called base/aliasof/autovis; HelperTypes knows '
+                  f'"base" and not "aliasof" (premises of c16_entity_header_roundtrip); failing: {forms_bad[:5]}')
+    vals = ck.coq_eval(IMPORTS, ['map hw ' + coq_list(w_cases), 'map hr ' + coq_list(r_cases)], name='head', preamble=pre, timeout=900)
+    if vals is None:
+        ck.obligation('correspondence:text_header_writer', False, 'model could not be evaluated')
+        ck.tie_broken.append('correspondence entity header: model evaluation failed')
+        return
+    wc, rc = (parse_coq_N_list(v) for v in vals)
+    wbad = [i for i, c in enumerate(wc) if c != 0]
+    rbad = [i for i, c in enumerate(rc) if c not in (0, 4)]
+    ck.obligation('correspondence:text_header_writer', not wbad and len(wc) == len(w_cases),
+                  f'EntityDef.export header: {len(wc)} cases, {len(wbad)} disagreements (tokens of the real Tokenizer == head_toks of Fmt/FgdHead.v)')
+    ck.obligation('correspondence:text_header_reader', not rbad and len(rc) == len(r_cases),
+                  f'EntityDef.parse header: {len(rc)} token lists (as written and with 1-2 mutations), {len(rbad)} disagreements, '
+                  f'{sum(1 for c in rc if c == 4)} where the model stopped elsewhere than the end of the list (not compared); '
+                  f'{len(hp)} (helper type, arguments) pairs tabulated from HELPER_IMPL')
+    if wbad or rbad:
+        ck.tie_broken.append('correspondence entity header (Fmt/FgdHead.v vs EntityDef.export/parse)')
+        which, j = ('writer', wbad[0]) if wbad else ('reader', rbad[0])
+        ck.extra['text_header_disagreement'] = {'side': which, 'code': (wc if wbad else rc)[j], 'case': (w_cases if wbad else r_cases)[j][:1500]}
 
 
 # ----------------------------------------------------------------------------------------------- binary records
@@ -2578,14 +2764,15 @@ def run(ck: Ck) -> None:
             [('theorems', lambda c: c.theorems('Props/C16.v'), ()),
              ('instance_obligations', lambda c: c.instance_obligations(IMPORTS, INSTANCE_OBLIGATIONS, name='c16'), ()),
              ('data_obligations', data_obligations, (data, tb)),
-             ('corr_writer_reader', corr_writer_reader, ()),
-             ('corr_bits', corr_bits, ()),
-             ('corr_strdict', corr_strdict, ())],
+             ('corr_writer_reader', corr_writer_reader, ())],
             [('corr_binary_records', corr_binary_records, (data, tb)),
              ('line_data_obligations', line_data_obligations, ()),
              ('corr_lines', corr_lines, ()),
+             ('corr_head', corr_head, ()),
              ('corr_lazy', corr_lazy, (data, tb, via)),
-             ('corr_multi', corr_multi, (via, bool(multi_side.get('effective_first', True))))],
+             ('corr_multi', corr_multi, (via, bool(multi_side.get('effective_first', True)))),
+             ('corr_bits', corr_bits, ()),
+             ('corr_strdict', corr_strdict, ())],
         ])
 
     def searches() -> None:
@@ -2627,6 +2814,7 @@ def run(ck: Ck) -> None:
         ck.explain('instance:text_bool_')
         ck.explain('instance:text_line_cfg_ok_is_these')
         ck.explain('correspondence:text_lines_')
+        ck.explain('correspondence:text_header_')
     # a translator that failed closed at a site is explained by a concrete violation of the mechanism that site belongs to
     site_of = (('engine_dbase', 'lazy-multi-db'), ('engine_def', 'lazy-multi-db'), ('add_engine_database', 'lazy-multi-db'), ('EngineDB', 'lazy-'), ('_parse_block', 'lazy-'), ('get_fgd', 'lazy-'), ('serialise', 'binary-'), ('BinStrDict', 'binary-'),
                ('_write_longstring', 'longstring:'), ('_fgd_escape', 'longstring:'), ('ESCAPE', 'longstring:'),
